@@ -396,6 +396,9 @@ func (x *Exec) callStatic(st *State, call *ast.CallExpr, callee *types.Func, rec
 	key := x.eng.keyOf(callee)
 	c := x.eng.contracts[key]
 	if c == nil {
+		if vals, ok := x.inlineExprFunc(st, call, key, callee, recv); ok {
+			return vals
+		}
 		fail("callee %s has no contract (called at %s)", key, x.pos(call.Pos()))
 	}
 	args := x.evalArgs(st, call.Args)
@@ -931,4 +934,60 @@ func zeroOffsetResults(c *FuncContract, names []string) map[int]bool {
 		walk(en.E)
 	}
 	return out
+}
+
+// inlineExprFunc: a module function without a contract whose body is a single `return e1, ..., ek` (a small helper a
+// refactoring may introduce) is evaluated in place: parameters bound to the argument values, the result expressions
+// evaluated in the caller's state. Anything else without a contract stops generation.
+func (x *Exec) inlineExprFunc(st *State, call *ast.CallExpr, key string, callee *types.Func, recv Value) ([]Value, bool) {
+	fd := x.eng.decls[key]
+	p := x.eng.declPkg[key]
+	if fd == nil || p == nil || fd.Body == nil || len(fd.Body.List) != 1 || recv != nil || x.inlineDepth > 4 {
+		return nil, false
+	}
+	ret, ok := fd.Body.List[0].(*ast.ReturnStmt)
+	if !ok || len(ret.Results) == 0 {
+		return nil, false
+	}
+	sig := callee.Type().(*types.Signature)
+	if sig.Variadic() {
+		return nil, false
+	}
+	args := x.evalArgs(st, call.Args)
+	saved := map[types.Object]Value{}
+	had := map[types.Object]bool{}
+	for i := 0; i < sig.Params().Len() && i < len(args); i++ {
+		po := sig.Params().At(i)
+		if v, ok := st.vars[po]; ok {
+			saved[po], had[po] = v, true
+		}
+		st.vars[po] = x.convertAssign(args[i], po.Type())
+	}
+	oldPkg := x.pkg
+	x.pkg = p
+	x.inlineDepth++
+	var out []Value
+	func() {
+		defer func() {
+			x.pkg = oldPkg
+			x.inlineDepth--
+			for i := 0; i < sig.Params().Len(); i++ {
+				po := sig.Params().At(i)
+				if had[po] {
+					st.vars[po] = saved[po]
+				} else {
+					delete(st.vars, po)
+				}
+			}
+		}()
+		for i, re := range ret.Results {
+			v := x.eval(st, re)
+			if i < sig.Results().Len() {
+				v = x.convertAssign(v, sig.Results().At(i).Type())
+			}
+			out = append(out, v)
+		}
+	}()
+	x.eng.note(x.key, "call of "+key+" (no contract, single return expression) evaluated in place")
+	return out, true
 }
